@@ -112,19 +112,20 @@ def impl(c):
         return {"error": exc_class(e)}
 
 
-def requests(c):
+REQUESTS_NEED_IMPL = True
+
+
+def requests(c, ires):
     l = enc_log(c["log"])
-    r = impl(c)                      # the trace to replay is the implementation's own output
-    c["_trace"] = r.get("ok")
+    trace = ires.get("ok")           # the trace to replay is the implementation's own output
     reqs = ["topo fifo " + l]
-    if c["_trace"] is not None:
-        reqs.append("run %s %s" % (l, enc_ids(c["_trace"])))
-        reqs.append("chk %s %s" % (l, enc_ids(c["_trace"])))
+    if trace is not None:
+        reqs.append("run %s %s" % (l, enc_ids(trace)))
+        reqs.append("chk %s %s" % (l, enc_ids(trace)))
     return reqs
 
 
 def model(c, resp):
-    c.pop("_trace", None)
     res = {"fifo": resp[0]}
     if len(resp) > 1:
         res["is_model_run"] = resp[1]
